@@ -7,7 +7,7 @@
    functions, so termination is part of each statement; the one loop whose
    termination is not structural (dns.readName, which may jump backwards through
    compression pointers) has its own termination theorems. *)
-From CJ Require Import Common.Base C11.Model C11.ProofsMsg C11.ProofsFlight C11.ProofsDns.
+From CJ Require Import Common.Base C11.Model C11.ProofsMsg C11.ProofsFlight C11.ProofsDns C11.ProofsDown.
 
 (* ---- transports: ParseParams / GetDstPort of min, obfs4, prefix, dtls *)
 Theorem C11_entry_total_no_panic_parse_params :
@@ -116,3 +116,47 @@ Theorem C11_entry_total_no_panic_dns_process_request :
   forall cfg o view, wf_rpcfg cfg -> wf_rporacle o -> dns_process_request cfg o view <> Panic.
 Proof. exact dns_process_request_np. Qed.
 Print Assumptions C11_entry_total_no_panic_dns_process_request.
+
+(* ---- second wave: downstream of the entry points *)
+(* ingestRegistration (the ingest worker's body after parseRegMessage) on ANY registration object *)
+Theorem C11_entry_total_no_panic_ingest_registration :
+  forall r o, ingest_registration r o <> Panic.
+Proof. exact ingest_registration_np. Qed.
+Print Assumptions C11_entry_total_no_panic_ingest_registration.
+
+(* dtls.Transport.Connect never meets a typed-nil parameter pointer: what ParseParams produced is safe to use *)
+Theorem C11_dtls_connect_params_after_parse_no_panic :
+  forall libver data p, parse_params TrDtls libver data = Ok p -> dtls_connect_params p <> Panic.
+Proof. exact dtls_connect_after_parse_np. Qed.
+Print Assumptions C11_dtls_connect_params_after_parse_no_panic.
+
+Theorem C11_ingest_connect_no_panic :
+  forall r o shared c, connecting_ok r -> ingest_registration r o = Ok (IAdded shared (Some c)) -> c <> Panic.
+Proof. exact ingest_connect_np. Qed.
+Print Assumptions C11_ingest_connect_no_panic.
+
+(* prefix.TryFromID + the method calls overridePrefix makes on the result (bound check `>=`, 04f7448) *)
+Theorem C11_try_from_id_no_panic :
+  forall ids id, (forall i, (0 <= i < Z.of_nat (length ids))%Z -> In i ids) -> try_from_id ids id <> Panic.
+Proof. exact try_from_id_np. Qed.
+Print Assumptions C11_try_from_id_no_panic.
+
+(* ---- "never hangs" for the first-flight scans: the loops run at most once per table entry / per registration
+   of the phantom, and each iteration looks at a number of bytes bounded by the input length *)
+Theorem C11_never_hangs_prefix_flight :
+  forall getreg data tbl,
+    (prefix_loop_iters getreg data tbl <= length tbl)%nat /\
+    (forall x, 0 <= prefix_step_work data x <= zlen data + 64)%Z.
+Proof. exact prefix_flight_work. Qed.
+Print Assumptions C11_never_hangs_prefix_flight.
+
+Theorem C11_never_hangs_obfs4_flight :
+  forall buflen regs, (obfs4_loop_iters buflen regs <= length regs)%nat.
+Proof. exact obfs4_loop_iters_bounded. Qed.
+Print Assumptions C11_never_hangs_obfs4_flight.
+
+Theorem C11_never_hangs_find_mark_mac :
+  forall buflen startPos maxPos fromTail,
+    (0 <= startPos)%Z -> (0 <= find_mark_mac_work buflen startPos maxPos fromTail <= Z.max 16 buflen)%Z.
+Proof. exact find_mark_mac_work_bounded. Qed.
+Print Assumptions C11_never_hangs_find_mark_mac.
